@@ -67,11 +67,12 @@ fn relate(c: &Case, m: &c04::Mat, ctx: &Ctx, dir: &std::path::Path) -> Result<Ve
             }
             off += ctg.len();
         }
+        let cindex: std::collections::HashMap<&str, usize> = cnames.iter().enumerate().map(|(i, n)| (n.as_str(), i)).collect();
         let mut seen: BTreeMap<(usize, usize), ()> = BTreeMap::new();
         let mut last: Option<(usize, usize)> = None;
         let mut multi = false;
         for (chrom, pos, refb, alts, gts, fmt) in &v.records {
-            let Some(ci) = cnames.iter().position(|n| n == chrom) else {
+            let Some(ci) = cindex.get(chrom.as_str()).copied() else {
                 return Err(Outcome::Fail(format!("record on unknown contig {chrom}")));
             };
             let key = (ci, *pos);
@@ -129,6 +130,7 @@ fn relate(c: &Case, m: &c04::Mat, ctx: &Ctx, dir: &std::path::Path) -> Result<Ve
         if !exp.is_empty() { cl.push("has_records"); }
         if multi { cl.push(">=3_alleles"); }
         if m.reference.len() >= 2 { cl.push("multi_contig"); }
+        if m.samples.len() >= 9 { cl.push(">=9_samples"); }
         if m.reference.iter().any(|r| r.is_empty()) { cl.push("empty_contig"); }
         if m.reference.iter().any(|r| r.iter().any(|b| matches!(b, b'N' | b'n'))) { cl.push("N_in_reference"); }
         if m.reference.iter().any(|r| r.iter().any(|b| b.is_ascii_lowercase())) { cl.push("lower_case_reference"); }
@@ -158,9 +160,9 @@ fn check_large(lc: &c04::LargeCase, ctx: &Ctx) -> Outcome {
     let r = relate(&c, &m, ctx, &dir);
     ctx.done(&dir);
     match r {
-        Err(Outcome::Fail(msg)) => Outcome::Fail(format!("k={} rc={} content_seed={} contig_lengths=[{}, {}] snps={:?} ambig_mask={} repeat_mask={}: {msg}", c.k, c.rc, lc.content_seed, m.reference[0].len(), m.reference[1].len(), lc.snps, c.ambig_mask, c.repeat_mask)),
+        Err(Outcome::Fail(msg)) => Outcome::Fail(format!("k={} rc={} content_seed={} contigs={} first/last lengths=[{}, {}] snps={:?} ambig_mask={} repeat_mask={}: {msg}", c.k, c.rc, lc.content_seed, m.reference.len(), m.reference[0].len(), m.reference[m.reference.len() - 1].len(), lc.snps, c.ambig_mask, c.repeat_mask)),
         Err(o) => o,
-        Ok(cl) => pass(cl.contains(&"has_records"), key_of(&(c.k, c.rc, lc.content_seed, lc.extra, lc.second_len, &lc.snps)), cl),
+        Ok(cl) => pass(cl.contains(&"has_records"), key_of(&(c.k, c.rc, lc.content_seed, lc.extra, lc.second_len, &lc.snps, lc.many_contigs)), cl),
     }
 }
 
@@ -169,7 +171,7 @@ const RULE: &str = "differential between the tool's two output formats on C04's 
 fn stages(tier: Tier) -> Vec<Box<dyn Stage>> {
     vec![
         gen_stage_show("vcf_vs_aln", RULE, tier.pick(3200, 40_000), 250, c04::case_strategy, check, c04::show),
-        gen_stage_show("large_reference", "same relation on references longer than 65536 bases (random first contig of 65300-67300 bases + a short second contig, two samples with substitutions concentrated around concatenated position 65536 and in the second contig; content a pure function of content_seed). Non-trivial: >= 1 record.", tier.pick(24, 400), 10, c04::large_strategy, check_large, |c| serde_json::json!({"first_contig": 65_300 + c.extra as usize, "second_contig": c.second_len, "snps": c.snps.len()})),
+        gen_stage_show("large_reference", "same relation on references longer than 65536 bases (random first contig of 65300-67300 bases + a short second contig, two samples with substitutions concentrated around concatenated position 65536 and in the second contig; content a pure function of content_seed). Non-trivial: >= 1 record.", tier.pick(16, 320), 10, c04::large_strategy, check_large, |c| serde_json::json!({"first_contig": 65_300 + c.extra as usize, "second_contig": c.second_len, "snps": c.snps.len()})),
     ]
 }
 
